@@ -469,8 +469,19 @@ func C08(tier string) int {
 		res.Outcome(fmt.Sprintf("%s:%d-ordered-final-states", o.Name, len(o.Ordered)))
 	}
 	res.Extra["scenarios"] = per
+	// supplementary free-running pass under the race detector (run.sh runs it and hands over the log)
+	if rf := os.Getenv("VERIF_C08_RACE"); rf != "" {
+		b, _ := os.ReadFile(rf)
+		txt := string(b)
+		res.Extra["race_pass"] = tail(strings.TrimSpace(txt), 200)
+		if strings.Contains(txt, "DATA RACE") {
+			res.Violate("race|data-race-reported", "the Go race detector reports a data race while requests run free on one Actor: "+tail(txt, 1500), M{"check": "C08", "part": "race", "log": rf})
+		} else if strings.Contains(txt, "FAIL") {
+			res.Violate("race|free-running-test-failed", "the free-running request test fails: "+tail(txt, 1500), M{"check": "C08", "part": "race", "log": rf})
+		}
+	}
 	res.Rule = "per scenario: 2-3 real request goroutines on one Actor under a cooperative scheduler; every Database/Transport/callback call is a scheduling point, application locks are blocking resources; 2-thread scenarios: all interleavings (visited-state pruning); 3-thread: all with <= 2 (quick) / <= 3 (thorough) preemptions; oracle: no deadlock, every request returns, final collections (as multisets) equal those of some sequential order of the same requests, a duplicated id is in each inbox once / resolved once per inbox / forwarded once; distinct_nontrivial = distinct (scenario, final state) pairs"
-	res.Assumptions = []string{"application Lock/Unlock give mutual exclusion per id", "interleaving granularity = seam calls; unsynchronised accesses between them are outside this check",
+	res.Assumptions = []string{"application Lock/Unlock give mutual exclusion per id", "interleaving granularity = seam calls; unsynchronised accesses between them are looked for by the supplementary free-running -race pass only",
 		"library code is deterministic given the results it observes (enforced: replay divergence is a hard error)"}
 	return res.Finish()
 }
@@ -521,3 +532,12 @@ func C08Worker(args []string) int {
 	}
 	return 2
 }
+
+// Perms, World and RunSeq are exported for the free-running race pass (racetest).
+func Perms(n int) [][]int { return perms(n) }
+
+// World builds the scenario's initial application state.
+func (cs *ConcScenario) World() *ap.App { return cs.world() }
+
+// RunSeq runs the requests sequentially in the given order and returns the final state.
+func (cs *ConcScenario) RunSeq(order []int) *ap.App { return cs.runSeq(order).app }
